@@ -866,7 +866,7 @@ func processViolation(e *Env, c *Check, fv *foundViolation, limit time.Duration)
 		for _, h := range rp.WeakHashes {
 			hs = append(hs, fmt.Sprintf("%s %s (%s:%d)", h.Name, h.Ret, h.File, h.Line))
 		}
-		rp.Summary += fmt.Sprintf(" [configuration fault: hash function(s) %s weakened to %d bits: keys are identified by their hash alone, so colliding keys - which exist for any fixed-width hash - change each other's result]", strings.Join(hs, ", "), rp.WeakBits)
+		rp.Summary += fmt.Sprintf(" [configuration fault: hash function(s) %s weakened to %d bits: colliding keys - which exist for any fixed-width hash - become frequent; the violation needs such a collision]", strings.Join(hs, ", "), rp.WeakBits)
 	}
 	return writeReplay(e, rp), sig
 }
